@@ -55,7 +55,7 @@ theorem okc_flock (hΓ : Γ3 a g p) (hvg : VG g) : OkC .flockNB a g p pc t := by
     · simp [tfc, hl]; exact hK
   · simp [tfc]; exact hK
 
-theorem okc_uptodate (hΓ : Γ3 a g p) (hvg : VG g) (hgi : GI1 g) : OkC .uptodateCheck a g p pc t := by
+theorem okc_uptodate (hΓ : Γ3 a g p) (hvg : VG g) (hgi : GI1 g) (hgi4 : GI4 g) : OkC .uptodateCheck a g p pc t := by
   have hK := keep_all3 .uptodateCheck (pc := pc) (t := t) hΓ.c hvg
   unfold OkC
   cases hok : (exec Cmd.uptodateCheck g p).2.2
@@ -83,7 +83,9 @@ theorem okc_uptodate (hΓ : Γ3 a g p) (hvg : VG g) (hgi : GI1 g) : OkC .uptodat
         | none => simp [hd] at hok
         | some d =>
           simp [hd] at hok
-          simp [hd, hgi.dirs n d hd, hok.2]
+          obtain ⟨x, hx, _, hcx, hmx⟩ := hgi4.dirs n d hd (hgi.dirs n d hd)
+          rw [hok.2] at hx; injection hx with hx; subst hx
+          simp [hd, hgi.dirs n d hd, hok.2, hcx, hmx, treeOf]
 
 theorem okc_rmrf (hΓ : Γ3 a g p) (hvg : VG g) : OkC .rmrfNext a g p pc t := by
   have hK := keep_all3 .rmrfNext (pc := pc) (t := t) hΓ.c hvg
@@ -209,7 +211,7 @@ theorem okc_pull (hΓ : Γ3 a g p) (hvg : VG g) : OkC .gitPullMerge a g p pc t :
     obtain ⟨l1, l2⟩ := hl'
     have hb := hΓ.c.baseEq l1
     obtain ⟨h, hh, hg⟩ := hΓ.c.hGood l2
-    have he : exec Cmd.gitPullMerge g p = (g, p, true) := by simp [exec, hh, hb]
+    have he : exec Cmd.gitPullMerge g p = (g, { p with fetched := true }, true) := by simp [exec, hh, hb]
     rw [he] at hK
     simp [tfc, hl, he]
     autoc hK
@@ -230,7 +232,8 @@ theorem okc_push (hΓ : Γ3 a g p) (hvg : VG g) : OkC .gitPush a g p pc t := by
     obtain ⟨l1, l2⟩ := hl'
     have hb := hΓ.c.baseEq l1
     obtain ⟨h, hh, hg⟩ := hΓ.c.hGood l2
-    have he : exec Cmd.gitPush g p = ({ g with remote := h }, { p with base := h }, true) := by simp [exec, hh, hb]
+    have he : exec Cmd.gitPush g p = ({ g with remote := h }, { p with base := h, fetched := false }, true) := by
+      simp [exec, hh, hb]
     rw [he] at hK
     simp [tfc, hl, he]
     autoc hK
@@ -275,10 +278,10 @@ theorem okc_reset (hΓ : Γ3 a g p) (hvg : VG g) : OkC .gitResetHash a g p pc t 
 theorem okc_mv (hΓ : Γ3 a g p) (hvg : VG g) (hdh : DirsInHist g) : OkC .mvNextTo a g p pc t := by
   have hK := keep_all3 .mvNextTo (pc := pc) (t := t) hΓ.c hvg
   unfold OkC
-  by_cases hl : (a.c.headR && a.s.nextOk && a.n.fresh && a.c.quietF) = true
+  by_cases hl : (a.c.headR && a.s.nextOk && a.k.codeH && a.n.fresh && a.c.quietF) = true
   · have hl' := hl
     simp only [Bool.and_eq_true] at hl'
-    obtain ⟨⟨⟨l1, l2⟩, l3⟩, l4⟩ := hl'
+    obtain ⟨⟨⟨⟨l1, l2⟩, l5⟩, l3⟩, l4⟩ := hl'
     have hh := hΓ.c.headR l1
     obtain ⟨_, d', hn', hb⟩ := hΓ.s.nextOk l2
     obtain ⟨_, hf⟩ := (hΓ.n l4).fresh l3
@@ -295,8 +298,11 @@ theorem okc_mv (hΓ : Γ3 a g p) (hvg : VG g) (hdh : DirsInHist g) : OkC .mvNext
     simp [tfc, hl, he]
     autoc hK
     · rfl
-    · exact ⟨d, by simp [lookupDir], hb, hd⟩
-  · have : (a.c.headR && a.s.nextOk && a.n.fresh && a.c.quietF) = false := by simpa using hl
+    · obtain ⟨_, d5, x5, hn5, hx5, hc5, hm5⟩ := hΓ.k.codeH l5
+      rw [hn] at hn5; injection hn5 with hn5; subst hn5
+      rw [hd] at hx5; injection hx5 with hx5; subst hx5
+      exact ⟨d, by simp [lookupDir], hb, hd, by simpa [treeOf] using hc5, hm5⟩
+  · have : (a.c.headR && a.s.nextOk && a.k.codeH && a.n.fresh && a.c.quietF) = false := by simpa using hl
     simp [tfc, this]; exact hK
 
 theorem okc_rm (hΓ : Γ3 a g p) (hvg : VG g) : OkC .rmCurrent a g p pc t := by
@@ -314,19 +320,20 @@ theorem okc_ln (hΓ : Γ3 a g p) (hvg : VG g) : OkC .lnCurrent a g p pc t := by
   rename_i hf
   simp at hf
   have hc := hΓ.c.curNone hf.1
-  obtain ⟨d, hd, hb, hh⟩ := hΓ.c.dirNew hf.2
-  simp [exec, hc, G.newest, hd, hb, hh]
+  obtain ⟨d, hd, hb, hh, hcd, hmd⟩ := hΓ.c.dirNew hf.2
+  simp [exec, hc, G.newest, hd, hb, hh, hcd, hmd, treeOf]
 
 end NA.C19
 
 namespace NA.C19
 variable {a : F3} {x : C3} {g : G} {p : Proc} {pc : Nat} {t : Bool}
 
-theorem okc_all (c : Cmd) (hΓ : Γ3 a g p) (hvg : VG g) (hgi : GI1 g) (hdh : DirsInHist g) : OkC c a g p pc t := by
+theorem okc_all (c : Cmd) (hΓ : Γ3 a g p) (hvg : VG g) (hgi : GI1 g) (hgi4 : GI4 g) (hdh : DirsInHist g) :
+    OkC c a g p pc t := by
   cases c with
   | nop w => exact okc_nop hΓ hvg
   | flockNB => exact okc_flock hΓ hvg
-  | uptodateCheck => exact okc_uptodate hΓ hvg hgi
+  | uptodateCheck => exact okc_uptodate hΓ hvg hgi hgi4
   | rmrfNext => exact okc_rmrf hΓ hvg
   | mkdirNext => exact okc_mkdir hΓ hvg
   | gitClone => exact okc_clone hΓ hvg
